@@ -410,6 +410,52 @@ impl<T: Qcow2IoOps> Qcow2Dev<T> {
         Ok(())
     }
 
+    /// Zero the still-new data clusters which `l2_table` maps.
+    ///
+    /// For whoever writes an l2 slice in place: that publishes the slice's
+    /// mappings like a flush does, so the same rule applies as in
+    /// flush_cache_entries(): a new data cluster is zeroed before its
+    /// mapping reaches the disk (the write which allocated it may not have
+    /// got there yet, or have failed).
+    pub(crate) async fn zero_new_data_clusters(&self, l2_table: &L2Table) -> Qcow2Result<()> {
+        let info = &self.info;
+
+        if self.new_cluster.read().await.is_empty() {
+            return Ok(());
+        }
+
+        for cls_off in l2_table.mapped_data_clusters() {
+            let key = cls_off >> info.cluster_bits();
+            // never wait for the per-cluster lock with the map's guard held
+            let cluster = {
+                let cls_map = self.new_cluster.read().await;
+                cls_map.get(&key).cloned()
+            };
+            if let Some(cluster) = cluster {
+                let mut locked_cls = cluster.write().await;
+
+                if !(*locked_cls) {
+                    *locked_cls = true;
+                    if let Err(err) = self
+                        .call_fallocate(
+                            cls_off,
+                            info.cluster_size(),
+                            Qcow2OpsFlags::FALLOCATE_ZERO_RANGE,
+                        )
+                        .await
+                    {
+                        *locked_cls = false;
+                        return Err(err);
+                    }
+                }
+                drop(locked_cls);
+                self.clear_new_cluster(key).await;
+            }
+        }
+
+        Ok(())
+    }
+
     /// if the refblock cache for holding refcount block slice is empty
     pub fn refblock_cache_is_empty(&self) -> bool {
         self.refblock_cache.is_empty()
